@@ -74,3 +74,33 @@ Proof. exact @C08_result_exact. Qed.
 
 Print Assumptions C08_constrained_field_is_not_any.
 Print Assumptions C08_exact.
+
+(* ------------------------------------------------------------------------------------------------------------
+   Extension (third round): the operand-order / constant-extraction WRAPPER of this domain is REGENERATED from the Python
+   source (tools/translate_single.py -> Gen/SingleGen.v, in an exception monad) and proved equal to the model's wrapper on
+   every comparison of table arity (Lemmas/SingleGenLemmas.v): an edit of the wrapper in /repo changes the subject of
+   these theorems on the next run. *)
+From Coq Require Import List String NArith ZArith Bool Arith.
+From Tealer Require Import Tables Leaves LeafPrelude Syntax Parse Cfg StackAst Keys KeysGen SingleGen Analysis Domains Eval LeafLemmas SingleLemmas ExecLemmas TypeLemmas SingleGenLemmas.
+
+Theorem C08_wrapper_regenerated :
+  forall (intcs : option (list N)) (fam : keyfam) (fld : string) (op : instr) (pos : nat) (args : list sval),
+       stack_pop_size op = Some (Datatypes.length args) -> addr_single_gen intcs fam fld op pos args = Some (addr_single intcs fam fld op pos args).
+Proof. exact @addr_single_gen_eq_table. Qed.
+
+Theorem C08_wrapper_regenerated_sound :
+  forall (e : env) (fam : keyfam) (fld : string) (op : instr) (pos : nat) (args : list sval) (t : N) (a : string) (b : bool) (r : sset * sset),
+       fld <> "GroupIndex" ->
+       key_txn e fam = Some t ->
+       e_field e t fld = VAddr a ->
+       a <> "ZERO" ->
+       is_marker a = false ->
+       addr_const_compared (e_intcs e) fam fld args ->
+       zero_literal_ok args ->
+       creator_not_literal e args ->
+       leaf_truth e op args = Some b ->
+       addr_single_gen (e_intcs e) fam fld op pos args = Some r -> addr_gamma (if b then fst r else snd r) (abs_name e a).
+Proof. exact @addr_single_gen_sound. Qed.
+
+Print Assumptions C08_wrapper_regenerated.
+Print Assumptions C08_wrapper_regenerated_sound.
